@@ -20,7 +20,7 @@ func init() {
 	fw.Register(&fw.Property{
 		ID:    "C09",
 		Level: "exploration",
-		Rule: "cases = two peers, each ONE instance with 2-4 databases (mixed types; write lists wildcard / shared / disjoint) on the default shared event bus; 20-60 steps of {local write, remote write + delivery (replication), Load(-1), manual Sync} on a PRNG-chosen ACTIVE database while the others idle, roles rotating every few steps; then rounds in which two databases of one instance are written concurrently (with PRNG latency in the simulated topic.Peers call); then a reconnect after which only the direct-channel head exchange (payloads for all databases back to back) can deliver one new entry per database and peer; finally both instances are restarted and every database is reopened and loaded (in half of the cases with ONE CreateDBOptions value reused for every Open). Monitors: wire log (every publish and direct send), a harness subscription to every store event on both shared buses, and (progress, max, entries, view) of every idle database before/after each phase. " +
+		Rule: "cases = two peers, each ONE instance with 2-4 databases (mixed types; write lists wildcard / shared / disjoint) on the default shared event bus; 20-60 steps of {local write, remote write + delivery (replication), Load(-1), manual Sync} on a PRNG-chosen ACTIVE database while the others idle, roles rotating every few steps; then rounds in which two databases of one instance are written concurrently (with PRNG latency in the simulated topic.Peers call); then a reconnect after which only the direct-channel head exchange (payloads for all databases back to back) can deliver one new entry per database and peer; finally both instances are restarted and every database is reopened and loaded (in half of the cases with ONE CreateDBOptions value reused for every Open); in one case in three the instances keep their caches in memory (the default directory) and, instead of the restart, a second handle of every database is opened on the running instance and loaded. In every second case the first two databases have the same name. Monitors: wire log (every publish and direct send), a harness subscription to every store event on both shared buses, and (progress, max, entries, view) of every idle database before/after each phase. " +
 			"distinct = hash(database set, step script); non-trivial = >= 2 databases, >= 1 database idle while another replicated remote entries, and >= 10 wire messages checked",
 		Assumptions: []string{"simulated network records every message the stores publish or send", "the harness's own bus subscription has a large buffer and is drained continuously"},
 		Cases:       c09Cases,
@@ -39,7 +39,7 @@ func c09Cases(tier string, seed int64) []fw.Case {
 	rng := rand.New(rand.NewSource(seed*817504243 + 9))
 	var out []fw.Case
 	for i := 0; i < n; i++ {
-		out = append(out, fw.Case{Idx: i, Seed: rng.Int63(), P: map[string]interface{}{"ndbs": 2 + rng.Intn(3), "steps": 20 + rng.Intn(41), "lists": []string{"wild", "shared", "disjoint"}[i%3], "shared": i%2 == 1}})
+		out = append(out, fw.Case{Idx: i, Seed: rng.Int63(), P: map[string]interface{}{"ndbs": 2 + rng.Intn(3), "steps": 20 + rng.Intn(41), "lists": []string{"wild", "shared", "disjoint"}[i%3], "shared": i%2 == 1, "memdir": i%6 == 1 || i%6 == 3}})
 	}
 	return out
 }
@@ -57,11 +57,13 @@ func c09Run(c fw.Case) fw.Verdict {
 	v := fw.Verdict{}
 	rng := rand.New(rand.NewSource(c.Seed))
 	nd, nsteps, lists := c.Int("ndbs", 2), c.Int("steps", 20), c.Str("lists", "wild")
-	A, err := e.W.AddPeer(sim.PeerOpts{OnDisk: true})
+	// memdir: the instances keep their caches in memory (the default when no directory is given)
+	memdir := c.Bool("memdir")
+	A, err := e.W.AddPeer(sim.PeerOpts{OnDisk: !memdir})
 	if err != nil {
 		return fw.Verdict{Status: fw.Inconclusive, What: err.Error()}
 	}
-	B, err := e.W.AddPeer(sim.PeerOpts{OnDisk: true})
+	B, err := e.W.AddPeer(sim.PeerOpts{OnDisk: !memdir})
 	if err != nil {
 		return fw.Verdict{Status: fw.Inconclusive, What: err.Error()}
 	}
@@ -401,6 +403,46 @@ func c09Run(c fw.Case) fw.Verdict {
 		for _, p := range peers {
 			want[fmt.Sprintf("%s@%d", db.Addr, p.Idx)] = stateOf(db, p)
 		}
+	}
+	if memdir {
+		// nothing survives a restart of an in-memory instance: instead a SECOND handle of every database is
+		// opened on the running instance and loaded from the cache; it must list that database's entries
+		// (those its first handle holds) and nothing else
+		for _, p := range peers {
+			for _, db := range dbs {
+				octx, ocancel := context.WithTimeout(bg, 20*time.Second)
+				second, err := p.DB.Open(octx, db.Addr, &iface.CreateDBOptions{})
+				if err == nil {
+					p.Track(second)
+					err = second.Load(octx, -1)
+				}
+				ocancel()
+				if err != nil {
+					return fail(&Violation{"second-handle-failed", fmt.Sprintf("database %s on p%d: second handle: %v", db.Name, p.Idx, err)})
+				}
+				e.W.Settle()
+				first := want[fmt.Sprintf("%s@%d", db.Addr, p.Idx)]
+				own := map[string]bool{}
+				for _, h := range first.order {
+					own[h] = true
+				}
+				v.Count("second_handle_checks", 1)
+				for _, en := range second.OpLog().Values().Slice() {
+					if en.GetLogID() != db.Addr || !own[en.GetHash().String()] {
+						return fail(&Violation{"crosstalk=persisted-state", fmt.Sprintf("a second handle of database %s on p%d (in-memory cache) loaded entry %s of log %s, which the first handle of that database does not hold", db.Name, p.Idx, short(en.GetHash().String()), en.GetLogID())})
+					}
+				}
+				_ = second.Close()
+				// closing either handle makes the instance forget the address: register the first one again is
+				// not possible, so nothing else is done with this database on this peer
+			}
+		}
+		v.Status = fw.Held
+		v.Sig = fw.HashSig(nd, lists, fmt.Sprint(steps), "memdir")
+		v.NonTrivial = nd >= 2 && idleWhileReplicating > 0 && v.Counters["wire_messages_checked"] >= 10
+		v.Count("idle_while_other_replicated", int64(idleWhileReplicating))
+		v.Sample = map[string]interface{}{"write_lists": lists, "in_memory_directory": true, "databases": nd}
+		return v
 	}
 	for _, p := range peers {
 		p.Stop()
